@@ -496,6 +496,10 @@ func (g *Gen) wfAxiom(name, term, bound string) string {
 	if w == "true" {
 		return ""
 	}
+	// only cells of allocated objects: what sits at a reference that is not allocated yet is the
+	// initial content of a future object (a callee may return a fresh object that points to
+	// something allocated after this point)
+	w = "(=> (< r!w " + bound + ") " + w + ")"
 	if ai.levels == 1 {
 		return "(forall ((r!w Int)) (! " + w + " :pattern (" + v + ")))"
 	}
